@@ -159,10 +159,12 @@ func (req *Request) Read(b *bufio.Reader) error {
 		return ErrNetworkError
 	}
 
+	// stamp the request before any format check: ServeOnce compares ReceiveTime
+	// with the clock even when Read fails
+	req.ReceiveTime = time.Now()
 	if !strings.HasSuffix(s, "\r\n") {
 		return ErrInvalidCmd
 	}
-	req.ReceiveTime = time.Now()
 	parts := splitKeys(s)
 	if len(parts) < 1 {
 		return ErrInvalidCmd
